@@ -331,6 +331,10 @@ def body_mef(B, I):
     d = mk_sample(B, I, 'float64', n=4)
     if which == 0:
         scale = SCALES[ch.pick(I['si'], 0, 4)]
+        if I['given']:
+            # populations containing a zero and a negative event (log scale clips them)
+            d[0, 0] = 0.0
+            d[2, 0] = -3.0
         pops = [d[0:2, 0], d[2:4, 0]]
         given = I['given']
         args = (pops,)
